@@ -3,6 +3,8 @@ package balancer
 import (
 	"context"
 	"fmt"
+	"slices"
+	"strings"
 	"sync/atomic"
 
 	"github.com/thushan/olla/internal/core/domain"
@@ -40,6 +42,15 @@ func (r *RoundRobinSelector) Select(ctx context.Context, endpoints []*domain.End
 	if len(routable) == 0 {
 		return nil, fmt.Errorf("no routable endpoints available")
 	}
+
+	// the turn must not depend on the order the caller lists the endpoints in: the repository
+	// builds its lists by ranging over a map, so that order changes from request to request
+	slices.SortStableFunc(routable, func(a, b *domain.Endpoint) int {
+		if c := strings.Compare(a.Name, b.Name); c != 0 {
+			return c
+		}
+		return strings.Compare(a.URLString, b.URLString)
+	})
 
 	current := atomic.AddUint64(&r.counter, 1) - 1 // Subtract 1 to start from 0
 	index := current % uint64(len(routable))
